@@ -103,6 +103,12 @@ func (packet *Packet) ReadFrom(ctx context.Context, reader io.Reader, timeout ti
 				if packet.Header.MsgType == TDS_BUF_CLOSE {
 					return totalBytes, err
 				}
+
+				// The reader reported the end of the stream together
+				// with the last bytes of the packet. The packet is
+				// complete, the end of the stream is reported again
+				// by the next read.
+				break
 			}
 
 			return totalBytes, fmt.Errorf("error reading body: %w", err)
